@@ -85,6 +85,23 @@ def c17b(ctx, tu):
             ok = len(evs) >= 2 and qe(evs[0]) == AG + "::trace_exception" and evs[-1]["e"] == "throw" and evs[-1].get("rethrow")
         ctx.ob("C17.b.exc", A["dispatch"], ok, pattern=fn.pat, unit=tu.name, inst=fn.q,
                detail="" if ok else "an exception leaving an accepted call must be recorded by the agent and rethrown")
+        # ... and everything that can throw a user exception while the agent is alive - the actions (side effects,
+        # THROW) and the return handler (RETURN expression) - runs inside that try block
+        tries = {t["id"]: t for t in fn.rec.get("tries", ())}
+        catch_all = set(i for i, t in tries.items() if "..." in t["handlers"])
+        outside = []
+        n_user = 0
+        for b, e in fn.events():
+            if e["e"] == "call" and qe(e) in (A["run_actions_base"], "trompeloeil::call_matcher_base::return_value"):
+                n_user += 1
+                if not (set(e.get("try", ())) & catch_all):
+                    outside.append(e)
+        ok = n_user >= 2 and not outside
+        ctx.ob("C17.b.exc.scope", A["dispatch"], ok, pattern=fn.pat, unit=tu.name, inst=fn.q,
+               detail="" if ok else ("%s is called outside the try block whose catch-all records the exception: an "
+                                     "exception thrown there leaves the trace record without its exception note (at %s)"
+                                     % (qe(outside[0]), short_loc(outside[0].get("loc", ""))) if outside else
+                                     "the actions / return handler calls were not found"))
     # return values pass through the agent
     for fn in tu.find("trompeloeil::return_handler_t::call"):
         rets = [e.get("x") for b, e in fn.events() if e["e"] == "return"]
